@@ -72,6 +72,11 @@ fn val(s: &str) -> Result<Variant, VariantError> {
         }
     }
 
+    if !value.is_finite() {
+        // too many digits
+        return Err(VariantError::Overflow);
+    }
+
     if state == STATE_INITIAL || state == STATE_SIGN {
         Ok(Variant::VInteger(0))
     } else if state == STATE_INT || state == STATE_DOT {
